@@ -291,6 +291,22 @@ def check_loops(R, P, u):
                         hops += 1
                     if src[0] == "subslice" and sym.norm(src[1])[0] == "var" and sym.norm(src[1])[1] == tgt and _strict_subslice(mir, tgt):
                         adv.add(bi)
+            # a slice cursor replaced by the iterator of a strictly shorter tail of its own remaining slice
+            # (`while let [first, rest @ ..] = it.as_slice() { ..; *it = rest.iter() }`)
+            for bi in body:
+                for st_ in mir.blocks[bi]["stmts"]:
+                    if st_["k"] != "assign" or st_["place"].get("proj") not in ([], [{"k": "deref"}]):
+                        continue
+                    src = sym.norm(S.rvalue(st_["rv"])) if hasattr(S, "rvalue") else None
+                    if not (src and src[0] == "call" and src[1].split("::")[-1] == "iter" and "slice" in src[1] and src[3] and src[3][0][0] == "subslice"):
+                        continue
+                    cur = sym.norm(S.operand({"k": "copy", "place": st_["place"]}))
+                    whole = sym.norm(src[3][0][1])
+                    if not (whole[0] == "call" and whole[1].endswith("as_slice") and whole[3] and sym.norm(whole[3][0]) == cur and whole[4] in body):
+                        continue
+                    holders = [mir.blocks[x]["term"]["dest"]["l"] for x in body if mir.blocks[x]["term"]["k"] == "call" and x == whole[4] and not mir.blocks[x]["term"]["dest"].get("proj")]
+                    if holders and all(_strict_subslice(mir, h_) for h_ in holders):
+                        adv.add(bi)
             # every cycle through the header passes an advancing call
             succ_in = [s for s in mir.succs(h) if s in body]
             inner = cfg.reachable(mir, succ_in, avoid=adv | (set(mir.live_blocks()) - body))
